@@ -85,6 +85,14 @@ def observe(base: bytes, rid: int, addr: int, contexts: bool, truncations: bool,
         for _ in range(4):
             junk = bytes(history_rng.randrange(256) for _ in range(7))
             consumers(junk, history_rng.randrange(0, 1 << 20), True)
+        # ... and the sequential-fetch history: a predecessor instruction that ENDS at addr is fetched on the same emulator while
+        # other bytes lie behind it (what any look-ahead of the fetch path has seen), then the memory is rewritten with the
+        # buffer under test (self-modifying code, a loader overwriting the next instruction) and it is fetched at addr
+        pred = history_rng.choice([bytes([0x00]), bytes([0x08, 0x12]), bytes([0x32, 0x00]), bytes([0x30, 0x50, 0x10, 0x01]), bytes([0x02, 0x34, 0x12])])
+        other = history_rng.choice([bytes([0x08, 0x12, 0x00, 0x00]), bytes([0x02, 0x34, 0x12, 0x00]), bytes([0x32, 0xC8, 0x10, 0x20]),
+                                    bytes(history_rng.randrange(256) for _ in range(6))])
+        if addr >= len(pred):
+            consumers(pred + other, addr - len(pred), True)
         rows.append([5, len(base)] + consumers(base, addr, True))
     return {"id": rid, "b": list(base), "o": rows}
 
